@@ -190,16 +190,29 @@ def run(case, ctx):
         # coincidence facts (used to scope known findings and the non-trivial rule)
         opnames = [(_norm(o["opid"]) if o["opid"] is not None else None) for o in case["ops"]]
         dup_opid = len([x for x in opnames if x is not None]) != len({x for x in opnames if x is not None})
+
+        def _packages(o):
+            """The tag packages an operation's module is written to (first tag, or every tag with generate_all_tags)."""
+            tags = [_norm(t) for t in (o["tags"] or ["default"])]
+            return set(tags if case.get("all_tags") else tags[:1])
+
+        def _shares_module_with_other(o, k):
+            """Another operation's id maps to the same module name *inside the same tag package* (the shape of KF-C07-01;
+            the same id under different tags gives two separate files and is no collision)."""
+            if opnames[k] is None:
+                return False
+            return any(j != k and opnames[j] == opnames[k] and (_packages(o) & _packages(o2)) for j, o2 in enumerate(case["ops"]))
         snames = [_norm(s["name"]) for s in case["schemas"]] + [_norm(s["name"] + s["inline_child"]) for s in case["schemas"] if s.get("inline_child")] \
             + [_norm(s["title"]) for s in case["schemas"] if s.get("title")]
         dup_schema = len(snames) != len(set(snames))
         # ---- operations
         present_ops = []
-        for o in case["ops"]:
+        for k_op, o in enumerate(case["ops"]):
             ident = f"{o['method'].upper()} {o['path']}"
             holders = [k for k, v in api_files.items() if o["marker"] in v]
             n_tags = max(1, len(o["tags"]))
-            site = {"item": "operation", "fault": o.get("fault") or "none", **({"coinciding_operation_ids": True} if dup_opid else {})}
+            site = {"item": "operation", "fault": o.get("fault") or "none",
+                    **({"coinciding_operation_ids": True} if _shares_module_with_other(o, k_op) else {})}
             ctx.evals()
             if not holders:
                 if ident not in diag:
